@@ -46,7 +46,7 @@ fn compile(scope: &str) -> Option<globset::GlobMatcher> {
 }
 
 /// limit-scope column: every structure rule's scope matcher on the NORMALISED path (what
-/// resolve_limits / explain / the sibling dir_matcher evaluate since fixes/D07)
+/// resolve_limits / explain / check_siblings' rule selection (fixes/D81) evaluate since fixes/D07)
 fn lim_scope(config: &Config, p: &Path) -> Vec<bool> {
     let p = &normalize_for_matching(p);
     config
